@@ -1,0 +1,274 @@
+//! Verification hooks. Compiled only with the `verif-hooks` cargo feature.
+//!
+//! Nothing in here changes behaviour unless a harness explicitly arms it:
+//! all plans default to "do nothing", logs default to "off".
+
+use std::{
+    alloc::Layout,
+    cell::{Cell, RefCell},
+    collections::HashSet,
+};
+
+pub use crate::alloc::{AllocError, AllocProxy, Allocator, CaoLangAllocator, SysAllocator};
+use crate::{
+    instruction::Instruction,
+    value::Value,
+    vm::runtime::{cao_lang_function::CaoLangClosure, cao_lang_object::CaoLangObject, RuntimeData},
+};
+
+/// When should the hook in `CaoLangAllocator::alloc` force an extra collection?
+#[derive(Debug, Clone, Default)]
+pub enum GcPlan {
+    /// never force
+    #[default]
+    Default,
+    /// force a collection at every allocation
+    Every,
+    /// force a collection at every n-th allocation
+    EveryNth(u64),
+    /// force a collection at the listed allocation indices
+    AtIndices(Vec<u64>),
+}
+
+#[derive(Debug, Clone, Copy)]
+pub enum AllocEvent {
+    Alloc {
+        idx: u64,
+        size: usize,
+        align: usize,
+        ptr: usize,
+        ok: bool,
+        /// `allocated` counter after the call returned
+        allocated_after: usize,
+        limit: usize,
+    },
+    Dealloc {
+        size: usize,
+        align: usize,
+        ptr: usize,
+        allocated_after: usize,
+    },
+    GcBegin,
+    GcEnd,
+}
+
+/// Per-allocator verification state
+#[derive(Debug, Default)]
+pub struct VerifAllocState {
+    pub alloc_index: Cell<u64>,
+    pub plan: RefCell<GcPlan>,
+    /// fail the allocation with this index by dropping the limit to 0 for that one call
+    pub fail_at: Cell<Option<u64>>,
+    pub saved_limit: Cell<Option<usize>>,
+    pub log: RefCell<Option<Vec<AllocEvent>>>,
+    pub quarantine_on: Cell<bool>,
+    pub quarantine: RefCell<Vec<(usize, Layout)>>,
+    pub quarantine_set: RefCell<HashSet<usize>>,
+    pub forced_gcs: Cell<u64>,
+}
+
+impl VerifAllocState {
+    /// called at the top of `alloc`; returns the index of this allocation
+    pub fn begin_alloc(&self, alloc: &CaoLangAllocator) -> u64 {
+        let idx = self.alloc_index.get();
+        self.alloc_index.set(idx + 1);
+        if self.fail_at.get() == Some(idx) {
+            let old = alloc.limit.swap(0, std::sync::atomic::Ordering::Relaxed);
+            self.saved_limit.set(Some(old));
+        }
+        idx
+    }
+
+    /// called on every exit path of `alloc`
+    pub fn end_alloc(&self, alloc: &CaoLangAllocator, idx: u64, l: Layout, ptr: usize, ok: bool) {
+        if let Some(old) = self.saved_limit.take() {
+            alloc
+                .limit
+                .store(old, std::sync::atomic::Ordering::Relaxed);
+        }
+        if let Some(log) = self.log.borrow_mut().as_mut() {
+            log.push(AllocEvent::Alloc {
+                idx,
+                size: l.size(),
+                align: l.align(),
+                ptr,
+                ok,
+                allocated_after: alloc.allocated.load(std::sync::atomic::Ordering::Relaxed),
+                limit: alloc.limit.load(std::sync::atomic::Ordering::Relaxed),
+            });
+        }
+    }
+
+    pub fn should_force_gc(&self, idx: u64) -> bool {
+        let hit = match &*self.plan.borrow() {
+            GcPlan::Default => false,
+            GcPlan::Every => true,
+            GcPlan::EveryNth(n) => *n != 0 && idx % *n == 0,
+            GcPlan::AtIndices(v) => v.contains(&idx),
+        };
+        if hit {
+            self.forced_gcs.set(self.forced_gcs.get() + 1);
+        }
+        hit
+    }
+
+    /// returns true if the block was quarantined (the caller must not release it)
+    pub fn on_dealloc(&self, alloc: &CaoLangAllocator, ptr: usize, l: Layout) -> bool {
+        if let Some(log) = self.log.borrow_mut().as_mut() {
+            log.push(AllocEvent::Dealloc {
+                size: l.size(),
+                align: l.align(),
+                ptr,
+                allocated_after: alloc.allocated.load(std::sync::atomic::Ordering::Relaxed),
+            });
+        }
+        if self.quarantine_on.get() {
+            self.quarantine.borrow_mut().push((ptr, l));
+            self.quarantine_set.borrow_mut().insert(ptr);
+            return true;
+        }
+        false
+    }
+
+    pub fn log_marker(&self, ev: AllocEvent) {
+        if let Some(log) = self.log.borrow_mut().as_mut() {
+            log.push(ev);
+        }
+    }
+
+    pub fn is_quarantined(&self, ptr: usize) -> bool {
+        self.quarantine_set.borrow().contains(&ptr)
+    }
+
+    pub fn start_log(&self) {
+        *self.log.borrow_mut() = Some(Vec::new());
+    }
+
+    pub fn take_log(&self) -> Vec<AllocEvent> {
+        self.log.borrow_mut().take().unwrap_or_default()
+    }
+
+    pub fn drain_log(&self) -> Vec<AllocEvent> {
+        match self.log.borrow_mut().as_mut() {
+            Some(l) => std::mem::take(l),
+            None => Vec::new(),
+        }
+    }
+}
+
+impl Drop for VerifAllocState {
+    fn drop(&mut self) {
+        for (ptr, l) in self.quarantine.borrow_mut().drain(..) {
+            unsafe { std::alloc::dealloc(ptr as *mut u8, l) }
+        }
+    }
+}
+
+pub type DispatchCallback = Box<dyn FnMut(&RuntimeData, u8)>;
+
+/// Per-VM verification state
+#[derive(Default)]
+pub struct VerifVmState {
+    /// number of instructions dispatched, all nesting levels
+    pub dispatched: u64,
+    pub histogram: Vec<u64>,
+    pub gc_count: u64,
+    /// set by `gc`, cleared by the harness
+    pub gc_since_last_dispatch: bool,
+    /// opcode that was executing when the last collection ran
+    pub current_opcode: u8,
+    pub gc_by_opcode: Vec<u64>,
+    /// called before each dispatch (after counting)
+    pub on_dispatch: Option<DispatchCallback>,
+}
+
+impl VerifVmState {
+    pub fn reset_counters(&mut self) {
+        self.dispatched = 0;
+        self.histogram.clear();
+        self.gc_count = 0;
+        self.gc_since_last_dispatch = false;
+        self.gc_by_opcode.clear();
+    }
+}
+
+impl RuntimeData {
+    pub fn verif_on_dispatch(&mut self, opcode: u8) {
+        let st = &mut self.verif;
+        st.dispatched += 1;
+        if st.histogram.len() <= opcode as usize {
+            st.histogram.resize(opcode as usize + 1, 0);
+        }
+        st.histogram[opcode as usize] += 1;
+        if let Some(mut cb) = self.verif.on_dispatch.take() {
+            cb(self, opcode);
+            if self.verif.on_dispatch.is_none() {
+                self.verif.on_dispatch = Some(cb);
+            }
+        }
+        self.verif.current_opcode = opcode;
+        self.verif.gc_since_last_dispatch = false;
+    }
+
+    pub fn verif_on_gc(&mut self) {
+        let st = &mut self.verif;
+        st.gc_count += 1;
+        st.gc_since_last_dispatch = true;
+        let op = st.current_opcode as usize;
+        if st.gc_by_opcode.len() <= op {
+            st.gc_by_opcode.resize(op + 1, 0);
+        }
+        st.gc_by_opcode[op] += 1;
+    }
+
+    pub fn verif_value_stack(&self) -> &[Value] {
+        self.value_stack.as_slice()
+    }
+
+    pub fn verif_value_stack_capacity(&self) -> usize {
+        self.value_stack.verif_capacity()
+    }
+
+    pub fn verif_globals(&self) -> &[Value] {
+        &self.global_vars
+    }
+
+    /// (src_instr_ptr, dst_instr_ptr, stack_offset, closure)
+    pub fn verif_call_frames(&self) -> Vec<(u32, u32, u32, *mut CaoLangClosure)> {
+        self.call_stack
+            .iter()
+            .map(|f| (f.src_instr_ptr, f.dst_instr_ptr, f.stack_offset, f.closure))
+            .collect()
+    }
+
+    pub fn verif_call_depth(&self) -> usize {
+        self.call_stack.len()
+    }
+
+    pub fn verif_objects(&self) -> &[std::ptr::NonNull<CaoLangObject>] {
+        &self.object_list
+    }
+
+    pub fn verif_open_upvalues(&self) -> *mut CaoLangObject {
+        self.open_upvalues
+    }
+
+    pub fn verif_allocator(&self) -> &CaoLangAllocator {
+        &self.memory
+    }
+
+    pub fn verif_alloc_proxy(&self) -> AllocProxy {
+        self.memory.clone()
+    }
+}
+
+/// (opcode, Debug name, span in bytes including the opcode byte)
+pub fn verif_instruction_table() -> Vec<(u8, String, usize)> {
+    let mut out = Vec::new();
+    for op in 0..=u8::MAX {
+        if let Ok(i) = Instruction::try_from(op) {
+            out.push((op, format!("{i:?}"), i.span()));
+        }
+    }
+    out
+}
